@@ -238,8 +238,10 @@ WIDE_JSON = {
 def json_objects(max_leaves=8, min_size=1, nonfinite=False):
     small = st.dictionaries(_json_key, json_values(max_leaves, nonfinite),
                             min_size=min_size, max_size=4)
-    return st.builds(lambda v, k: WIDE_JSON if k == 0 else v, small,
-                     st.sampled_from(range(150)))
+    return st.builds(
+        lambda v, k: WIDE_JSON if k == 0 else
+        dict(v, path={'old': 'src/a.c', 'new': 'src/a.c'}) if k in (1, 2, 3)
+        else v, small, st.sampled_from(range(150)))
 
 
 # -- writer call arguments ------------------------------------------------
@@ -325,6 +327,12 @@ def diff_kwargs(draw):
             elif how == 1:
                 # the other byte order, announced by its BOM
                 content = ('\ufeff' + text).encode(own + '-be')
+
+    if own in MULTIBYTE and mode == 'text' and \
+            draw(st.sampled_from(range(6))) == 0:
+        # a stray byte in front: the length is no multiple of the code
+        # unit, the content still ends in the encoded newline
+        content = b'x' + content
 
     kw['content'] = content
     _put(kw, 'diff_type', draw(st.sampled_from([ABSENT, ABSENT, 'text',
